@@ -145,6 +145,10 @@ def run(ctx):
                     env3 = {k: v for k, v in env.items() if k != f}
                     out = im.call(ev, env3)
                     ctx.evaluated()
+                    if out[0] == "exc":
+                        # ... and no number of undeclared extra fields makes up for the missing one
+                        out = im.call(ev, dict(env3, extra_a=1, extra_b="x", extra_c=None, **{f + "_": env.get(f)}))
+                        ctx.evaluated()
                     if out[0] != "exc":
                         ctx.violation("missing-field-defaulted", dict(text=gp.text, env=env3, omitted=f, got=out),
                                       mechanism="C09/missing-field-defaulted")
@@ -154,6 +158,37 @@ def run(ctx):
                 ctx.sample(dict(text=gp.text, twins={k: v[0] for k, v in twins.items()}, env=env if envs else None))
         ctx.layer("hashed-key-probe", "observed" if probe.calls else "unreachable", hits=probe.calls, key_comparisons=key_cmp)
 
+        # declaration order with names that only a careless sort would tie (case twins, numbered names)
+        for names in (["uid", "UID"], ["sessionId", "sessionid", "SessionID"], ["seg2", "seg10", "seg1"], ["a_1", "a1", "A1"], ["x", "X", "_x"]):
+            import itertools
+
+            evs2 = {}
+            for order in itertools.permutations(names):
+                text = f'def po {{ salt: "s" splitters: {", ".join(order)} return "a" weighted 1, "b" weighted 1, "c" weighted 1 }}'
+                c2 = im.construct(text)
+                if c2[0] == "ok":
+                    evs2[order] = (text, c2[1])
+            base_order = tuple(names)
+            if base_order not in evs2:
+                ctx.violation("construct-failed", dict(names=names), mechanism="C09/construct-failed")
+                continue
+            for j in range(40):
+                env = {n: f"v{j}-{i}" if (i + j) % 3 else j * 7 + i for i, n in enumerate(names)}
+                want = im.call(evs2[base_order][1], env)
+                for order, (text, ev2) in evs2.items():
+                    got = im.call(ev2, env)
+                    ctx.evaluated()
+                    if got != want:
+                        ctx.violation("irrelevant-change-moved-assignment", dict(transformation="splitters-permuted", text=evs2[base_order][0],
+                                                                                 twin_text=text, env=env, base=want, got=got),
+                                      mechanism="C09/depends-on-splitters-permuted")
+                        break
+                else:
+                    ctx.nontrivial("perm", tuple(names), j)
+                    continue
+                break
+            else:
+                ctx.count("equal/splitters-permuted-name-twins")
         # must differ ---------------------------------------------------------------------------
         for i, (s1, s2) in enumerate(SALT_PAIRS):
             if not ctx.mine(i):
